@@ -392,7 +392,24 @@ func safeArm(a *ssa.BasicBlock) bool {
 				return false
 			}
 		case *ssa.UnOp:
-			if x.Op == token.MUL || x.Op == token.ARROW {
+			if x.Op == token.ARROW {
+				return false
+			}
+			if x.Op == token.MUL {
+				// a load is side-effect free; allowed when the address is an element of a package-level
+				// array computed in this arm (checked dynamically: concrete index within bounds)
+				ia, ok := x.X.(*ssa.IndexAddr)
+				if !ok || ia.Block() != a || !isScalarT(x.Type()) {
+					return false
+				}
+			}
+		case *ssa.IndexAddr:
+			if _, ok := x.X.(*ssa.Global); !ok {
+				return false
+			}
+			if pt, ok := x.X.Type().Underlying().(*types.Pointer); !ok {
+				return false
+			} else if _, ok := pt.Elem().Underlying().(*types.Array); !ok {
 				return false
 			}
 		case *ssa.Convert:
@@ -451,8 +468,29 @@ func (m *Machine) tryMergeDiamond(fr *Frame, b *ssa.BasicBlock, c *Term) *ssa.Ba
 			return nil
 		}
 	}
+	if len(m.path.gor) > 1 {
+		for _, a := range arms {
+			for _, ins := range a.Instrs {
+				if _, ok := ins.(*ssa.IndexAddr); ok {
+					return nil // loads are scheduling points in concurrency mode
+				}
+			}
+		}
+	}
 	for _, a := range arms {
 		for _, ins := range a.Instrs[:len(a.Instrs)-1] {
+			if ia, ok := ins.(*ssa.IndexAddr); ok {
+				// dynamic half of safeArm: the index must be a constant inside the array
+				idx, ok := m.get(fr, ia.Index).(*Term)
+				if !ok {
+					return nil
+				}
+				cv, isConst := evalConst(idx)
+				at := ia.X.Type().Underlying().(*types.Pointer).Elem().Underlying().(*types.Array)
+				if !isConst || cv >= uint64(at.Len()) {
+					return nil // nothing but SSA values has been assigned so far: fall back to forking
+				}
+			}
 			m.exec(fr, ins)
 		}
 	}
